@@ -42,7 +42,7 @@ def case(name, key, line, conf, content, runs, note, twin=None):
 
 def main(tool):
     os.makedirs(OUT, exist_ok=True)
-    kf = {k['key']: k['line'] for k in json.load(open(os.path.join(os.path.dirname(OUT), '..', 'known_findings.json')))['findings']}
+    kf = {k['key']: k['line'] for k in json.load(open(os.path.join(os.path.dirname(OUT), '..', 'known_findings.json')))['findings'] if 'key' in k and 'line' in k}
     both = [dict(args=['-c', 'conf', 'status']), dict(args=['-c', 'conf', 'list']), dict(args=['-C', 'content'], noflags=True)]
 
     # 1. sgetbs length 0xFFFFFFFF
@@ -113,6 +113,14 @@ def main(tool):
     case('04_split_count_unbounded', 'F-C09b-split-count-unbounded', kf['F-C09b-split-count-unbounded'], CONF1, seal(body),
          [dict(args=['-C', 'content'], noflags=True)],
          'CRC-valid v3 file whose Q record declares 200 splits; before 6cd910b `snapraid -C` indexed split_map[8] out of bounds while parsing (SIGSEGV)')
+    # 5. string length equal to the buffer capacity (seeded weakening `len > size` of the sgetbs bound: str[len] = 0 one past the array)
+    m128 = HDR2 + b'z' + vb(1024) + b'M' + bs(b'd1') + vb(0) + vb(0) + vb(0) + vb(128) + b'U' * 128
+    case('05_string_len_eq_uuid_max', None, None, CONF1, seal(m128), both,
+         'M record whose uuid has the length UUID_MAX = 128 (varint 00 81) followed by 128 bytes and a correct CRC: sgetbs must refuse len >= size; '
+         'with `len > size` the terminating NUL is written one byte past uuid[UUID_MAX] on the stack (ASan: stack-buffer-overflow), before the CRC check')
+    m4096 = HDR2 + b'z' + vb(1024) + b'M' + vb(4096) + b'n' * 4096
+    case('06_string_len_eq_path_max', None, None, CONF1, seal(m4096 + vb(0) + vb(0) + vb(0) + bs(b'')), both,
+         'M record whose name has the length PATH_MAX = 4096 (varint 00 a0) followed by 4096 bytes; same boundary for the path buffers')
     # 4b. the same reached from a valid file by ONE altered byte is found by the -C sweep of the v3 shapes (split count byte).
 
 
